@@ -7,7 +7,9 @@ Python oracle on the implementation's matrices -> shrink -> violations.
 """
 import copy
 import json
+import os
 import re
+import shutil
 import subprocess
 import sys
 from pathlib import Path
@@ -207,6 +209,22 @@ def oracle(mesh, q, r, elem_ids):
 
 
 # ------------------------------------------------------------- Coq side
+# which of the two modelled behaviours (unchanged tree = False / repaired = True)
+# the implementation follows at the three places where the unchanged code
+# violates the property; decided by behaviour in evaluate()
+VARIANT = {'hop_zero_diag': False, 'e2v_strict': False, 'grad_total': False}
+
+
+def variant_class(q):
+    if q['kind'] == 'hop' and not q['self_loop']:
+        return 'hop_zero_diag'
+    if q['kind'] == 'e2v' and not q['self_loop']:
+        return 'e2v_strict'
+    if q['kind'] == 'grad':
+        return 'grad_total'
+    return None
+
+
 def q_to_coq(q):
     b = lambda x: 'true' if x else 'false'  # noqa
     k = q['kind']
@@ -215,13 +233,14 @@ def q_to_coq(q):
     if k == 'adj':
         return f"QAdj {b(q['nodal'])} {b(q['order1'])}"
     if k == 'hop':
-        return f"QHop {b(q['nodal'])} {int(q['n'])} {b(q['self_loop'])} {b(q['order1'])}"
+        return (f"QHop {b(q['nodal'])} {int(q['n'])} {b(q['self_loop'])} {b(q['order1'])} "
+                f"{b(VARIANT['hop_zero_diag'])}")
     if k == 'lap':
         return f"QLap {b(q['nodal'])} {b(q['order1'])}"
     if k == 'grad':
-        return f"QGrad {b(q['nodal'])} {b(q['order1'])}"
+        return f"QGrad {b(q['nodal'])} {b(q['order1'])} {b(VARIANT['grad_total'])}"
     if k == 'e2v':
-        return f"QE2V {b(q['nodal'])} {b(q['self_loop'])}"
+        return f"QE2V {b(q['nodal'])} {b(q['self_loop'])} {b(VARIANT['e2v_strict'])}"
     raise AssertionError(k)
 
 
@@ -386,6 +405,53 @@ def evaluate(ctx, cases, name):
                 fails.append((qi, d))
         oracle_fail[c['id']] = fails
     corr = coq_check(ctx, cases, results, name)
+    # behavioural choice of the modelled variant, per class of query: if fresh-
+    # object queries of a class disagree, all queries of that class are
+    # re-evaluated with the other variant, which is adopted only when all of
+    # them then agree (so a repaired tree passes, a third behaviour does not)
+    def fails(cr, classes, sel=cases):
+        return [(c['id'], qi) for c in sel if not c.get('shared')
+                for qi in (cr.get(c['id']) or []) if variant_class(c['queries'][qi]) in classes]
+
+    def retry(classes):
+        """re-evaluate only the queries of `classes` under the flipped variants;
+        returns the corrected failure lists or None"""
+        for k in classes:
+            VARIANT[k] = not VARIANT[k]
+        sub, back = [], {}
+        for c in cases:
+            idx = [qi for qi, q in enumerate(c['queries']) if variant_class(q) in classes]
+            if idx and corr.get(c['id']) is not None:
+                sub.append({'id': c['id'], 'mesh': c['mesh'],
+                            'queries': [c['queries'][qi] for qi in idx]})
+                back[c['id']] = idx
+        res2 = {c['id']: [results[c['id']][qi] for qi in back[c['id']]] for c in sub}
+        corr2 = coq_check(ctx, sub, res2, name + '_' + '_'.join(sorted(classes)))
+        ok = all(corr2.get(c['id']) is not None for c in sub) and not any(
+            corr2[c['id']] for c in sub if not next(x for x in cases if x['id'] == c['id']).get('shared'))
+        if not ok:
+            for k in classes:
+                VARIANT[k] = not VARIANT[k]
+            return None
+        out = {}
+        for c in sub:
+            keep = [qi for qi in corr[c['id']] if qi not in back[c['id']]]
+            out[c['id']] = sorted(keep + [back[c['id']][j] for j in corr2[c['id']]])
+        return out
+
+    failing = [k for k in VARIANT if fails(corr, {k})]
+    if failing:
+        upd = retry(set(failing))
+        if upd is None and len(failing) > 1:
+            for k in failing:
+                u = retry({k})
+                if u is not None:
+                    corr.update(u)
+                    ctx.notes['variant_by_behaviour:' + k] = VARIANT[k]
+        elif upd is not None:
+            corr.update(upd)
+            for k in failing:
+                ctx.notes['variant_by_behaviour:' + k] = VARIANT[k]
     return types, results, oracle_fail, corr
 
 
@@ -564,6 +630,8 @@ def main(ctx):
                         'staleness after mesh modification is C19',
                         'node ids distinct, element ids distinct over all blocks, block keys in '
                         'ELEMENT_TYPES (wf_mesh); duplicate ids are outside the model']
+    ctx.scratch = ctx.scratch / f'run_{os.getpid()}'     # concurrent runs do not collide
+    ctx.scratch.mkdir(parents=True, exist_ok=True)
     proof_ok, log = ctx.build_props('C13/Props.v')
     if not proof_ok:
         ctx.notes['build_log_tail'] = log[-1500:]
@@ -614,13 +682,18 @@ def main(ctx):
         bad = [o['name'] for o in ctx.obligations if not o['discharged']]
         ctx.violation('proof-broken', {}, 'all theorems of C13/Props.v check', 'do not check',
                       ', '.join(bad), found_input=False, signature={'kind': 'proof-broken'})
-    return ctx.finish()
+    ctx.notes['model_variants'] = dict(VARIANT)
+    rc = ctx.finish()
+    shutil.rmtree(ctx.scratch, ignore_errors=True)
+    return rc
 
 
 def replay(path):
     rp = json.loads(Path(path).read_text())
     c = rp['case']
     ctx = lib.Ctx(PID, 'quick')
+    ctx.scratch = ctx.scratch / f'replay_{os.getpid()}'
+    ctx.scratch.mkdir(parents=True, exist_ok=True)
     if 'mesh' not in c or 'query' not in c:
         print('nothing to replay on the implementation:', json.dumps(rp, indent=1)[:2000])
         return 1
